@@ -56,7 +56,8 @@ def cases(tier):
             out.append({"kind": "polygon", "poly": poly, "order": order, "pl": in_plane(k), "fam": name})
             k += 1
         for r in RADII:
-            out.append({"kind": "sphero", "poly": poly, "r": r, "pl": in_plane(k), "fam": name})
+            for order in ("ccw", "cw"):
+                out.append({"kind": "sphero", "poly": poly, "r": r, "order": order, "pl": in_plane(k), "fam": name})
             k += 1
     for n in range(3, 31):
         for order in ("ccw", "cw"):
@@ -65,7 +66,7 @@ def cases(tier):
         for r in RADII:
             if q and (n + RADII.index(r)) % 2:
                 continue
-            out.append({"kind": "sphero", "ngon": n, "r": r, "pl": in_plane(k)})
+            out.append({"kind": "sphero", "ngon": n, "r": r, "order": "cw" if (n + RADII.index(r)) % 4 < 2 else "ccw", "pl": in_plane(k)})
             k += 1
     for ia, a in enumerate(A.AXES):
         for c in range(4):
@@ -190,7 +191,9 @@ def run_case(case):
         else:
             r = case["r"] * L
             try:
-                obj = S.ConvexSpheropolygon(np.hstack([V, np.zeros((len(V), 1))]).copy(), r)
+                # clockwise input gives a core whose stored normal is -z (the shape still lies in the xy-plane)
+                Vin = V if case.get("order", "ccw") == "ccw" else V[::-1]
+                obj = S.ConvexSpheropolygon(np.hstack([Vin, np.zeros((len(V), 1))]).copy(), r)
             except Exception as ex:
                 rep.violation("construct", "ConvexSpheropolygon", "__init__", "raised:" + type(ex).__name__, case, repr(ex))
                 return rep
